@@ -307,6 +307,10 @@ func (n *eNode) lookups(pool []*eBlock) {
 		var cfg *types.ConfigData
 		n.guarded(fmt.Sprintf("GetConfigData(%d, block #%d)", e, b.rb.Number), func() { cfg, err = n.es.GetConfigData(e, b.rb.Header) })
 		wc, ok := expectedCfg(b, e)
+		if err != nil || cfg == nil {
+			// a configuration is always defined: the latest one announced on the block's own ancestry, else the genesis one
+			k.Violate("C26", "config-data", "config-lookup-failed", "block #%d %s: no configuration for epoch %d (%v) although the latest earlier configuration of its own chain applies", b.rb.Number, cu.Short(b.rb.Hash), e, err)
+		}
 		if err == nil && cfg != nil {
 			if ok && (cfg.C1 != wc.C1 || cfg.C2 != wc.C2) {
 				k.Violate("C26", "config-data", "config-data-from-another-fork", "block #%d %s: config for epoch %d is c=%d/%d, the latest configuration announced on its own ancestry is c=%d/%d", b.rb.Number, cu.Short(b.rb.Hash), e, cfg.C1, cfg.C2, wc.C1, wc.C2)
